@@ -213,12 +213,18 @@ Section Butcher.
   Definition cvec (t : T) (sel : bool) (i : nat) : F := sumn (stages t) (fun j => A t sel i j).
   Definition q (n d : Z) : F := fofZ n / fofZ d.
 
+  (** stage-time vectors, materialised once per condition ([memo]) *)
+  Definition cmem (t : T) (sel : bool) : nat -> F := memo (stages t) (cvec t sel).
+
   Definition oc_sum (t : T) X : F := sumn (stages t) (bvec t X) - 1.
-  Definition oc_bc (t : T) X Y : F := sumn (stages t) (fun i => bvec t X i * cvec t Y i) - q 1 2.
+  Definition oc_bc (t : T) X Y : F :=
+    let cY := cmem t Y in sumn (stages t) (fun i => bvec t X i * cY i) - q 1 2.
   Definition oc_bcc (t : T) X Y Z : F :=
-    sumn (stages t) (fun i => bvec t X i * cvec t Y i * cvec t Z i) - q 1 3.
+    let cY := cmem t Y in let cZ := cmem t Z in
+    sumn (stages t) (fun i => bvec t X i * cY i * cZ i) - q 1 3.
   Definition oc_bAc (t : T) X Y Z : F :=
-    sumn (stages t) (fun i => bvec t X i * sumn (stages t) (fun j => A t Y i j * cvec t Z j)) - q 1 6.
+    let cZ := cmem t Z in
+    sumn (stages t) (fun i => bvec t X i * sumn (stages t) (fun j => A t Y i j * cZ j)) - q 1 6.
 
   Definition bools := [true; false].
   Definition order1 (t : T) : list F := map (oc_sum t) bools.
@@ -231,19 +237,22 @@ Section Butcher.
     map (fun i => cvec t true i - cvec t false i) (seq 0 (stages t)).
 
   (** explicit-only conditions *)
-  Definition Ac (t : T) (f : nat -> F) (i : nat) : F := sumn (stages t) (fun j => A t true i j * f j).
+  Definition Ac (t : T) (f : nat -> F) : nat -> F :=
+    memo (stages t) (fun i => sumn (stages t) (fun j => A t true i j * f j)).
   Definition ex_order3_bushy (t : T) : F := oc_bcc t true true true.
   Definition ex_order3_tall (t : T) : F := oc_bAc t true true true.
   Definition ex_order4 (t : T) : list F :=
-    let s := stages t in let b := bvec t true in let c := cvec t true in
+    let s := stages t in let b := bvec t true in let c := cmem t true in
+    let Acv := Ac t c in let Ac2 := Ac t (fun j => c j * c j) in let AAc := Ac t Acv in
     [ sumn s (fun i => b i * c i * c i * c i) - q 1 4;
-      sumn s (fun i => b i * c i * Ac t c i) - q 1 8;
-      sumn s (fun i => b i * Ac t (fun j => c j * c j) i) - q 1 12;
-      sumn s (fun i => b i * Ac t (Ac t c) i) - q 1 24 ].
+      sumn s (fun i => b i * c i * Acv i) - q 1 8;
+      sumn s (fun i => b i * Ac2 i) - q 1 12;
+      sumn s (fun i => b i * AAc i) - q 1 24 ].
   Definition ex_order4_tall (t : T) : F :=
-    sumn (stages t) (fun i => bvec t true i * Ac t (Ac t (cvec t true)) i) - q 1 24.
+    let AAc := Ac t (Ac t (cmem t true)) in
+    sumn (stages t) (fun i => bvec t true i * AAc i) - q 1 24.
   Definition ex_order5_bushy (t : T) : F :=
-    let c := cvec t true in
+    let c := cmem t true in
     sumn (stages t) (fun i => bvec t true i * c i * c i * c i * c i) - q 1 5.
 
   Definition all_zero (l : list F) : bool := forallb (fun x => feqb x 0) l.
